@@ -6,3 +6,6 @@ open WebPkg.C15
 #print axioms recordsize_refused
 #print axioms record_buffer_bounded
 #print axioms read_step
+#print axioms read_every_sound
+#print axioms eof_complete_across_errors
+#print axioms stays_finished_after_eof
